@@ -117,11 +117,17 @@ func panicValue(kind string) any {
 		return errors.New(http.ErrAbortHandler.Error())
 	case "abort":
 		return http.ErrAbortHandler
+	case "nilerr": // nil-like: a nil pointer whose value-receiver Error method cannot be called
+		return (*valErr)(nil)
 	}
 	return nil // "nil": panic(nil) → *runtime.PanicNilError
 }
 
-var pvKinds = []string{"string", "error", "wrapped", "int", "struct", "pointer", "nilptr", "bytes", "nil", "wrapabort", "joinabort", "aborttext", "abort"}
+var pvKinds = []string{"string", "error", "wrapped", "int", "struct", "pointer", "nilptr", "bytes", "nil", "wrapabort", "joinabort", "aborttext", "abort", "nilerr"}
+
+type valErr struct{ msg string }
+
+func (e valErr) Error() string { return e.msg }
 
 type onlyReader struct{ r io.Reader }
 
@@ -313,6 +319,21 @@ func parseRecord(kind string, pl []byte) (rec, error) {
 }
 
 func wantPanicMatches(kind, pv string, r rec) string {
+	if pv == "nilerr" {
+		// the value has no rendering of its own (its Error method cannot be called on nil); the
+		// record must carry *a* panic attribute: JSON string / one text token / fmt's "<nil>"
+		switch kind {
+		case "json":
+			if r.panicJSON == nil || r.panicJSON.Kind != "str" {
+				return "panic attribute is not a JSON string"
+			}
+		case "nano":
+			if !strings.HasSuffix(r.panicText, " <nil>") && !strings.Contains(r.panicText, "PANIC") {
+				return fmt.Sprintf("record does not end in a rendering of the nil pointer: …%q", tailS(r.panicText, 60))
+			}
+		}
+		return ""
+	}
 	v := recoveredValue(pv)
 	switch kind {
 	case "json":
@@ -370,6 +391,7 @@ func runCase(cs Case, st *stats) (key, expected, observed string) {
 	l := logger.New(logrun.NewHandler(cs.Kind, w, cs.Threshold, false))
 	mux := httpd.NewMux()
 	var escaped atomic.Int64
+	var escapedURI atomic.Value
 	var inflight, maxInflight atomic.Int64
 	mux.HandleRelay(func(s *httpd.Store) {
 		n := inflight.Add(1)
@@ -383,7 +405,9 @@ func runCase(cs Case, st *stats) (key, expected, observed string) {
 		defer func() {
 			if r := recover(); r != nil {
 				if r != http.ErrAbortHandler { // may be passed on: net/http aborts the response
-					escaped.Add(1)
+					if escaped.Add(1) == 1 {
+						escapedURI.Store(s.R.RequestURI)
+					}
 				}
 				panic(r)
 			}
@@ -487,7 +511,12 @@ func runCase(cs Case, st *stats) (key, expected, observed string) {
 		st.maxInflight = m
 	}
 	if n := escaped.Load(); n > 0 {
-		return "escaped:" + tag, "no panic escapes Relay", fmt.Sprintf("%d panics came out of Relay", n)
+		uri, _ := escapedURI.Load().(string)
+		which := ""
+		if i := strings.Index(uri, "panic="); i >= 0 {
+			which = uri[i:]
+		}
+		return "escaped:" + tag + ":" + which, "no panic escapes Relay", fmt.Sprintf("%d panics came out of Relay, the first for %s", n, uri)
 	}
 	// the wire log
 	for i, rq := range cs.Reqs {
@@ -675,6 +704,9 @@ func runCase(cs Case, st *stats) (key, expected, observed string) {
 				pvs = append(pvs, pv)
 			}
 			sort.Slice(pvs, func(i, j int) bool {
+				if (pvs[i] == "nilerr") != (pvs[j] == "nilerr") {
+					return pvs[j] == "nilerr" // the value without a rendering of its own matches anything: try it last
+				}
 				a, b := fmt.Sprint(recoveredValue(pvs[i])), fmt.Sprint(recoveredValue(pvs[j]))
 				if len(a) != len(b) {
 					return len(a) > len(b)
